@@ -19,7 +19,9 @@ def dedicated(rng):
     out = [b"http://a.com/p?#frag", b"http://@host.com/", b"http://user:@host.com/", b"http://a%20b.com/x", b"http://u:p@h.example.org:21/d/../f", b"http://a.com/a/../../b", b"http://a.com/..",
            b"http://a.com//a//../b", b"hTTp://A.com", b"HTTP://a.com/", b"http://1.2.3.4/", b"http://0x7f.1/", b"http://[::1]:80/x", b"http://a.com/%2e%2e/%2E/x%2Fy", b"http://a.com?x#y", b"http://a.com#y?x",
            b"\\\\.abc\\UNC\\1.2.3.4\\file.txt", b"\\\\?\\UNC\\srv.example.com\\share\\a\\..\\f.exe", b"\\\\.\\UNC\\host\\share\\..\\..\\file.com", b"\\\\10.1.2.3@SSL@8080\\dav\\x.dll",
-           b"C:\\a\\.\\b\\..\\c.tar.gz", b"c:rel\\path\\file", b"\\\\?\\Volume{12345678-1234-1234-1234-123456789abc}\\dir\\f.txt", b"\\dir\\sub\\..\\name", b"C:\\Windows\\System32\\cmd.exe"]
+           b"C:\\a\\.\\b\\..\\c.tar.gz", b"c:rel\\path\\file", b"\\\\?\\Volume{12345678-1234-1234-1234-123456789abc}\\dir\\f.txt", b"\\dir\\sub\\..\\name", b"C:\\Windows\\System32\\cmd.exe",
+           b"C:\\backup\\setup.exe.old\\setup.exe", b"C:\\data.bin\\a.b", b"\\\\update.exe.example.com\\share\\update.exe", b"\\\\?\\C:\\logs\\log.txt.d\\old\\..\\log.txt",
+           b"c:\\temp\\foo\\..\\.\\.\\test-file.txt", b"http://ab.com/ab.com", b"http://u:u@u.com/u?u#u"]
     for _ in range(120):
         out.append(corpus_gen.embed(rng, corpus_gen.url(rng)))
         out.append(corpus_gen.embed(rng, corpus_gen.winpath(rng)))
